@@ -144,6 +144,16 @@ def malformed(rep, tier):
            t.Literal[[1]] if True else None, t.Annotated[int, []], t.Annotated[[], 1] if False else None, t.ForwardRef('Nope'), t.ForwardRef('a.b'), t.List['Nope'], t.Dict[str, 'Nope'], t.Union[int, 'Nope'],
            t.Callable[[int], 'Nope'], t.Callable[..., [1]] if False else None, t.Tuple[()], t.Type['Nope'], t.NewType('N', 5) if False else None, t.TypeVar('TX', bound='Nope'), t.TypeVar('TY', int, 'Nope'),
            type, type(None), int | str, int | None, GA(list, (int | str,)), t.Literal[1, Unhashable()] if False else None]
+    # second batch (exploration phase): C-level method descriptors, nested / unhashable / special-form members of tuple unions, classes made
+    # unhashable by their metaclass, structural classes in is_subhint, recursive string aliases
+    class _UnhashMeta(type):
+        def __eq__(cls, other): return cls is other
+    class MetaUnhashable(metaclass=_UnhashMeta): pass
+    class TD(t.TypedDict): x: int
+    class NonRuntimeProto(t.Protocol):
+        def m(self) -> int: ...
+    bad += [int.__add__, str.join, [].__len__, dict.__dict__['fromkeys'], (int, (str, bytes)), ((),), (int, [str]), (int, t.Generic), (int, t.ClassVar[int]), MetaUnhashable, GA(list, (MetaUnhashable,)),
+            TD, NonRuntimeProto, t.NewType('NLI', list[int]), dict[str, 'Tree'], t.Union[int, str, t.List['Json'], t.Dict[str, 'Json']]]
     bad = [b for b in bad]      # keep None entries: None is a valid hint
     cases = 0; fails = []
     def ok_exc(e): return isinstance(e, BeartypeException) and not type(e).__name__.startswith('_')
@@ -164,7 +174,11 @@ def malformed(rep, tier):
             for x in w:
                 if not issubclass(x.category, (BeartypeWarning, DeprecationWarning)): fails.append((name, repr(hint)[:80], f'warning {x.category.__name__}: {x.message}'[:160]))
     groups = {}
-    for f in fails: groups.setdefault((f[0].split('_')[0], f[2].split(':')[0]), []).append(f)
+    def hint_kind(r):
+        if 'MetaUnhashable' in r: return '.class_unhashable_by_metaclass'
+        if '.TD' in r or 'NonRuntimeProto' in r or 'NLI' in r: return '.uninstanceable_class_in_subhint'
+        return ''
+    for f in fails: groups.setdefault((f[0].split('_')[0], f[2].split(':')[0] + hint_kind(f[1])), []).append(f)
     for (api, exc), items in sorted(groups.items()):
         f = items[0]
         rep.add(f'C11.malformed.{api}.{exc}', 'refuted', backend='runtime-contract', where=f'{len(items)} cases; e.g. {f[0]}(hint={f[1]}) -> {f[2]}', solver_output='bounded run-time contract on the real public API (not a proof)',
